@@ -79,6 +79,7 @@ type FuncContract struct {
 	File     string
 	Line     int
 	Atomic   bool
+	SafetyInline bool // the safety sweep looks inside this function although it has a loop (range loops only)
 	Impl     string // key of the interface-method contract this function implements
 	ImplType string // interface type text for asIface
 	ImplProps []string
@@ -372,6 +373,8 @@ func (db *DB) parseClause(text, file string, line int, pkg string, cur **FuncCon
 				fc.SafetyRoot = true
 			case "opaque":
 				fc.Opaque = true
+			case "safety-inline":
+				fc.SafetyInline = true
 			case "reflective":
 				fc.Reflective = true
 			default:
